@@ -799,7 +799,11 @@ func (e *storeEnv) genWrites(task string, tx *store.OngoingTx, maxEntries int, m
 		used[k] = true
 		var md *store.KVMetadata
 		var val []byte
-		switch w := r.Intn(20); {
+		w := r.Intn(20)
+		if e.cfg.HdrVersion == 0 && w <= 2 {
+			w = 10 // entry metadata needs tx header version 1
+		}
+		switch {
 		case w == 0:
 			md = store.NewKVMetadata()
 			md.AsDeleted(true)
